@@ -16,7 +16,13 @@ Events (first element = tag):
                                                            vmode: ('imm', verdict) | ('def',)   [validator of i]
     ('await',   i, t, tie)
     ('data',    d, name, t, tie)
-    ('nack',    name, dig, reason, t, tie)
+    ('nack',    name, dig, reason, t, tie)                 reason: int r          NackReason element, shortest encoding
+                                                           | ('absent',)    Nack header WITHOUT a NackReason element
+                                                                            (NDNLPv2: reason None = 0)
+                                                           | ('wide', r, w) NackReason element with a w-byte value
+                                                                            (w in 1,2,4,8, not the shortest)
+    ('setdefault', harness_validator, t)                   legacy front-end: app.int_validator := a harness validator
+                                                           (True) / the library default sha256_digest_checker (False)
     ('vdone',   i, verdict, t, tie)
     ('cancel',  i, t, tie)
     ('shutdown', t, tie)
@@ -43,6 +49,36 @@ def v1_truth(k):
 def comp(k):
     from ndn.encoding import Component
     return Component.from_str(chr(97 + k) if k < 26 else 'c%d' % k)
+
+
+# ---- Nack reasons: every value / encoding a forwarder may legally send -------------------------------------
+def nack_reason_value(reason):
+    """The reason the application must see (what the model / specification is given)."""
+    if isinstance(reason, (tuple, list)):
+        return 0 if reason[0] == 'absent' else reason[1]
+    return reason
+
+
+def nack_wire(interest_wire, reason):
+    """LpPacket{Nack{[NackReason]}, Fragment{interest}}; the plain-int form goes through the library's encoder,
+    the other forms are encoded here (LpPacket 0x64, Nack 0x0320, NackReason 0x0321, Fragment 0x50)."""
+    from harness.lib import gen as G
+    if not isinstance(reason, (tuple, list)):
+        from ndn.encoding import make_network_nack
+        return bytes(make_network_nack(interest_wire, reason))
+    if reason[0] == 'absent':
+        hdr = b''
+    else:
+        hdr = G.tlv(0x0321, int(reason[1]).to_bytes(reason[2], 'big'))
+    return G.tlv(0x64, G.tlv(0x0320, hdr) + G.tlv(0x50, bytes(interest_wire)))
+
+
+# value boundaries of the NackReason number (0 = None, the three reasons forwarders send, widths 1/2/4/8)
+NACK_VALUES = [0, 1, 50, 100, 150, 255, 256, 65535, 65536, (1 << 32) - 1, 1 << 32, (1 << 64) - 1]
+NACK_FORMS = ([('absent',)] + NACK_VALUES
+              + [('wide', 0, 2), ('wide', 0, 8), ('wide', 50, 2), ('wide', 150, 4), ('wide', 255, 8), ('wide', 65535, 4)])
+# what the random histories draw from: the falsy / boundary reasons as often as the common ones
+NACK_POOL = [50, 100, 150, 0, ('absent',), 0, ('absent',), 1, 255, 256, ('wide', 0, 2), ('wide', 150, 4), 1 << 32]
 
 
 def data_wire(d, name):
@@ -284,10 +320,9 @@ class World:
         return fn
 
     def ev_nack(self, name, dig, reason):
-        from ndn.encoding import make_interest, InterestParam, make_network_nack
+        from ndn.encoding import make_interest, InterestParam
         iw = make_interest(self.full_name(name, dig), InterestParam(nonce=7, lifetime=4000))
-        wire = bytes(make_network_nack(iw, reason))
-        return self.recv(100, wire)
+        return self.recv(100, nack_wire(iw, reason))
 
     def ev_vdone(self, i, v):
         def fn():
@@ -516,7 +551,7 @@ def m_event(fe, ev):
     if tag == 'data':
         return [ev[4], [2, ev[1], list(ev[2]), ev[1], ev[3]]]
     if tag == 'nack':
-        return [ev[5], [3, list(ev[1]), m_dig(ev[2]), ev[3], ev[4]]]
+        return [ev[5], [3, list(ev[1]), m_dig(ev[2]), nack_reason_value(ev[3]), ev[4]]]
     if tag == 'vdone':
         return [ev[4], [4, ev[1], m_verdict(fe, ev[2]), ev[3]]]
     if tag == 'cancel':
@@ -676,6 +711,11 @@ def oracle(ctx, fe, h, r, prop):
                       f'exception escaped _receive: {r["errors"]}', case)
     if r['loop_errors']:
         ctx.violation(site, 'loop-exception-handler', f'loop exception handler called: {r["loop_errors"][:2]}', case)
+    if h and r['handler_calls'] and not any(e[0] == 'interest' for e in h):
+        # the only packets of this history are Data and Nacks (a Nack carries the application's OWN Interest)
+        ctx.violation(site + '._receive', 'nack-or-data-dispatched-as-incoming-interest',
+                      f'an Interest handler was called {r["handler_calls"]} although no Interest arrived '
+                      f'(the Fragment of a Nack is not an incoming Interest)', case)
     ids = expressed_ids(h)
     if not ids:
         return
@@ -779,6 +819,20 @@ def targeted(fe):
         add('data-during-validation', ex(0, A, 0, vm=('def',), fe=fe) + [('data', 0, A, 20, 0), ('data', 1, A, 30, tie), ('nack', A, None, 50, 40, 0),
                                                                           ('vdone', 0, P, 50, 0)])
         add('cancel-during-validation', ex(0, A, 0, vm=('def',), fe=fe) + [('data', 0, A, 20, 0), ('cancel', 0, 30, tie), ('vdone', 0, P, 50, 0)])
+    # every Nack reason value / encoding (incl. the falsy ones: NackReason 0 and a Nack header without NackReason):
+    # the nacked Interest ends with exactly that reason, at once; its neighbours (same name with a digest, a longer
+    # name) stay pending; an application that also serves the prefix never sees its own nacked Interest as incoming
+    for k, form in enumerate(NACK_FORMS):
+        tie = k % 3
+        add('nack-reason', ex(0, A, 0, fe=fe) + ex(1, AB, 0, life=300, fe=fe) + [('nack', A, None, form, 40, 0), ('advance', 500)])
+        add('nack-reason-tie', ex(0, A, 0, fe=fe) + ex(1, A, 0, life=200, fe=fe) + [('nack', A, None, form, 100, tie), ('advance', 500)])
+        add('nack-reason-digest', ex(0, A, 0, dig=0, fe=fe) + ex(1, A, 0, fe=fe) + [('nack', A, 0, form, 20, tie), ('data', 1, A, 30, 0), ('advance', 500)])
+        add('nack-reason-served-prefix', [('attach', A, False, 0), ('attach', AB, True, 0)] + ex(0, AB, 5, fe=fe) + ex(1, ABC, 5, cbp=True, fe=fe)
+            + [('nack', AB, None, form, 40, tie), ('nack', ABC, None, form, 50, 0), ('nack', X, None, form, 60, 0), ('advance', 500)])
+        add('nack-reason-twice', ex(0, A, 0, fe=fe) + [('nack', A, None, form, 20, 0), ('nack', A, None, 150, 30, 0)] + ex(1, A, 40, fe=fe)
+            + [('nack', A, None, NACK_FORMS[(k + 1) % len(NACK_FORMS)], 60, tie)])
+        add('nack-reason-validating', ex(0, A, 0, vm=('def',), fe=fe) + [('data', 0, A, 20, 0)] + ex(1, A, 25, life=300, fe=fe)
+            + [('nack', A, None, form, 30, tie), ('vdone', 0, P, 50, 0), ('advance', 500)])
     # every verdict
     for v in verdicts(fe):
         add('verdict-imm', ex(0, A, 0, vm=('imm', v), fe=fe) + [('data', 0, A, 20, 0)])
@@ -880,7 +934,7 @@ def rand_history(rng, fe, n_int=None, n_ev=None, wf=True):
             h.append(('data', d, name, t, tie))
         elif a == 'nack':
             h.append(('nack', rng.choice(int_names) if int_names and rng.random() < 0.6 else rng.choice(NAMES),
-                      rng.choice(dig_pool), rng.choice((50, 100, 150)), t, tie))
+                      rng.choice(dig_pool), rng.choice(NACK_POOL), t, tie))
         elif a == 'vdone':
             h.append(('vdone', rng.choice(deferred), rng.choice(verdicts(fe)) if rng.random() < 0.5 else PASS[fe], t, tie))
         elif a == 'cancel':
